@@ -99,6 +99,13 @@ def ctxStore (name descr : String) (m : MDesc) : Prog Unit :=
   (storeKey name m.key).andThen fun _ =>
   storeAnnotation name descr
 
+/-- NOT the code: the variant of `_store_model` that calls `store_key` inside
+    the `with db.transaction(model)` block, i.e. links the name before PENDING
+    is removed.  Kept to show what `linked_name_committed` excludes. -/
+def ctxStoreEarlyLink (name descr : String) (m : MDesc) : Prog Unit :=
+  (txn m.key ((storeEntryBody m).andThen fun _ => storeKey name m.key)).andThen fun _ =>
+  storeAnnotation name descr
+
 /-- `Context._retrieve_me(name)`: key, entry, annotation. -/
 def ctxRetrieve (name : String) : Prog (Entry × List Char) :=
   (retrieveKey name).andThen fun k =>
